@@ -535,44 +535,53 @@ Proof.
 Qed.
 
 (* the source has the repaired form of bucketType.reset (re-opened when the translator says otherwise) *)
-Lemma x_new_is_repaired : x_new = x_new_gen true true.
+Lemma x_new_is_repaired : x_new = x_new_gen true true true true.
 Proof. reflexivity. Qed.
 
 (* the refill interval the bucket works with, and the tokens it holds when set to st *)
-Definition eff_interval (st : bstate) : Z := interval_of true st.
+Definition eff_interval (st : bstate) : Z := interval_of true true st.
 Definition fresh_tokens (st : bstate) : Z := bs_max st - Z.min (bs_taken st) (bs_max st).
 
-(* any count >= 1 with any period 0 <= P <= 2^62 ns - also P < count - and any taken >= 0 *)
+(* any count >= 1 with any period P <= MaxInt64 - 2 ns - also P < count, zero, negative - and any taken >= 0 *)
 Definition fresh_cfg (st : bstate) : Prop :=
-  1 <= bs_max st <= capmax /\ 0 <= bs_period st <= capmax /\ 0 <= bs_taken st.
+  1 <= bs_max st <= capmax /\ bs_period st <= capmax /\ 0 <= bs_taken st.
 
 Lemma quot_cap p n : 1 <= n -> 0 <= p -> n * Z.quot p n <= p.
 Proof. intros. rewrite Z.quot_div_nonneg by lia. apply Z.mul_div_le. lia. Qed.
 
-Lemma eff_interval_spec st : 1 <= bs_max st -> 0 <= bs_period st ->
-  1 <= eff_interval st /\ (bs_max st * eff_interval st <= bs_period st \/ eff_interval st = 1).
+Lemma quot_neg p n : 1 <= n -> p < 0 -> Z.quot p n <= 0.
 Proof.
-  intros HM HP. unfold eff_interval, interval_of. pose proof (quot_cap (bs_period st) (bs_max st) HM HP).
-  pose proof (Z.quot_pos (bs_period st) (bs_max st) HP ltac:(lia)).
-  replace (0 <=? bs_period st) with true by lia. cbn [andb]. rewrite andb_true_r.
-  destruct (Z.eqb_spec (Z.quot (bs_period st) (bs_max st)) 0); split; try lia; auto.
+  intros. pose proof (Z.quot_opp_l p n ltac:(lia)). pose proof (Z.quot_pos (- p) n ltac:(lia) ltac:(lia)). lia.
+Qed.
+
+Lemma eff_interval_spec st : 1 <= bs_max st ->
+  1 <= eff_interval st /\ (0 <= bs_period st /\ bs_max st * eff_interval st <= bs_period st \/ eff_interval st = 1).
+Proof.
+  intros HM. unfold eff_interval, interval_of. cbn [andb].
+  destruct (Z.lt_ge_cases (bs_period st) 0) as [HP|HP].
+  - pose proof (quot_neg (bs_period st) (bs_max st) HM HP). replace (Z.quot (bs_period st) (bs_max st) <=? 0) with true by lia. lia.
+  - pose proof (quot_cap (bs_period st) (bs_max st) HM HP).
+    pose proof (Z.quot_pos (bs_period st) (bs_max st) HP ltac:(lia)).
+    destruct (Z.leb_spec (Z.quot (bs_period st) (bs_max st)) 0); [lia|].
+    replace (Z.quot (bs_period st) (bs_max st) =? 0) with false by lia. cbn [andb]. lia.
 Qed.
 
 Lemma x_new_clean st t : fresh_cfg st -> maxd <= t ->
   x_new st t = mkXL XNorm (bs_max st) (eff_interval st) (fresh_tokens st * eff_interval st) t false.
 Proof.
-  intros ((H1 & H1') & (HP & HP') & HT) Ht. rewrite x_new_is_repaired.
-  destruct (eff_interval_spec st H1 HP) as [HI HC].
+  intros ((H1 & H1') & HP' & HT) Ht. rewrite x_new_is_repaired.
+  destruct (eff_interval_spec st H1) as [HI HC].
   unfold x_new_gen, primed_of, fresh_tokens. fold (eff_interval st). replace (0 <? bs_max st) with true by lia.
   replace (eff_interval st <=? 0) with false by lia.
   set (I := eff_interval st) in *. set (j := Z.min (bs_taken st) (bs_max st)).
   assert (0 <= j <= bs_max st) by (subst j; lia).
   unfold x_allow. cbn [xk]. unfold x_avail. cbn [xlast xc xfrac]. unfold xcap. cbn [xburst xI].
   unfold capmax, maxd in *.
-  assert (bs_max st * I <= 4611686018427387904) by (destruct HC as [HC| ->]; lia).
-  rewrite (Z.min_r t 0) by lia. rewrite Z.sub_0_r. rewrite (Z.min_r t) by lia. rewrite Z.add_0_l.
+  assert (bs_max st * I <= 9223372036854775805) by (destruct HC as [[? HC]| ->]; lia).
+  assert (0 <= bs_max st * I) by nia.
+  rewrite (Z.min_r t 0) by lia. rewrite Z.sub_0_r. rewrite (Z.min_r t) by lia.
   rewrite (Z.min_l (bs_max st * I)) by lia.
-  replace (bs_max st * I <? 9223372036854775807) with true by lia.
+  replace (bs_max st * I <? bs_max st * I + 9223372036854775807) with true by lia.
   replace ((j <=? bs_max st) && ((0 <=? bs_max st * I - j * I) || (false && false && (bs_max st * I - j * I =? -1)))) with true by nia.
   cbn [snd]. f_equal. lia.
 Qed.
@@ -593,8 +602,8 @@ Theorem fresh_admits_exactly_N_proved : forall s t k st cs,
   length cs = (Z.to_nat (fresh_tokens st) + 1)%nat ->
   take_seq (snd (xset s t k st)) t k cs = repeat true (Z.to_nat (fresh_tokens st)) ++ [false].
 Proof.
-  intros s t k st cs F Ht Hf Hl. pose proof F as ((H1 & _) & (HP & _) & _).
-  destruct (eff_interval_spec st H1 HP) as [HI _].
+  intros s t k st cs F Ht Hf Hl. pose proof F as ((H1 & _) & _ & _).
+  destruct (eff_interval_spec st H1) as [HI _].
   apply (take_seq_clean k t (bs_max st) (eff_interval st) HI cs _ (fresh_tokens st)); [apply fresh_tokens_range; auto| |exact Hl].
   apply xset_clean; auto.
 Qed.
@@ -612,8 +621,8 @@ Theorem first_use_admits_exactly_N_proved : forall s t k st cs,
   length cs = (Z.to_nat (fresh_tokens st) + 1)%nat ->
   take_seq s t k cs = repeat true (Z.to_nat (fresh_tokens st)) ++ [false].
 Proof.
-  intros s t k st cs F Ht Hb Hd Hl. pose proof F as ((H1 & _) & (HP & _) & _).
-  destruct (eff_interval_spec st H1 HP) as [H2 _].
+  intros s t k st cs F Ht Hb Hd Hl. pose proof F as ((H1 & _) & _ & _).
+  destruct (eff_interval_spec st H1) as [H2 _].
   destruct cs as [|c cs]; [cbn in Hl; lia|].
   assert (E : take_seq s t k (c :: cs) = take_seq (put_b s k (x_new st t, st)) t k (c :: cs)).
   { cbn [take_seq]. rewrite (xtake_created s t c k [] 1 st Hb Hd). reflexivity. }
@@ -760,14 +769,8 @@ Lemma x_new_binv st t : wf_cfg st -> 0 <= t -> binv t (x_new st t).
 Proof.
   intros [HP [HM HM']] Ht. rewrite x_new_is_repaired. unfold x_new_gen. apply (x_allow_binv false _ 0 t); auto.
   intros K. cbn [xk] in K. destruct (Z.ltb_spec 0 (bs_max st)) as [M|M]; [|discriminate].
-  destruct (Z.leb_spec (interval_of true st) 0) as [I|I]; [discriminate|].
-  assert (0 <= bs_period st).
-  { unfold interval_of in I. destruct (Z.lt_ge_cases (bs_period st) 0); auto.
-    replace (0 <=? bs_period st) with false in I by lia. rewrite andb_false_r in I.
-    pose proof (Z.quot_opp_l (bs_period st) (bs_max st) ltac:(lia)).
-    pose proof (Z.quot_pos (- bs_period st) (bs_max st) ltac:(lia) ltac:(lia)). lia. }
-  destruct (eff_interval_spec st ltac:(lia) H) as [HI HC]. unfold eff_interval in *.
-  unfold lim_ok, xcap; cbn. repeat split; try lia.
+  destruct (eff_interval_spec st ltac:(lia)) as [HI HC]. unfold eff_interval in *.
+  unfold lim_ok, xcap, capmax in *; cbn [xI xburst xc xlast]. repeat split; try lia; try nia; destruct HC as [[? HC]|HC]; try lia; rewrite HC; lia.
 Qed.
 
 Lemma aget_in {V} k (m : list (key * V)) v : aget key_eqb k m = Some v -> exists k', In (k', v) m.
@@ -935,15 +938,33 @@ Proof.
 Qed.
 
 (* a declared rate above one operation per ns (0 <= P < N): the bucket works at 1 token per ns *)
-Lemma sub_ns_interval_is_clamped st : 1 <= bs_max st -> 0 <= bs_period st < bs_max st -> eff_interval st = 1.
+Lemma sub_ns_interval_is_clamped st : 1 <= bs_max st -> bs_period st < bs_max st -> eff_interval st = 1.
 Proof.
-  intros HM HP. unfold eff_interval, interval_of. rewrite (Z.quot_small (bs_period st) (bs_max st)) by lia.
-  replace (0 <=? bs_period st) with true by lia. reflexivity.
+  intros HM HP. destruct (eff_interval_spec st HM) as [HI [[H0 HC]|HC]]; auto. nia.
 Qed.
 
 Theorem sub_ns_bucket_proved : forall st t, fresh_cfg st -> bs_period st < bs_max st -> maxd <= t ->
   x_new st t = mkXL XNorm (bs_max st) 1 (fresh_tokens st) t false.
 Proof.
-  intros st t F HP Ht. pose proof F as ((H1 & _) & (H0 & _) & _).
-  rewrite (x_new_clean st t F Ht), (sub_ns_interval_is_clamped st H1 ltac:(lia)), Z.mul_1_r. reflexivity.
+  intros st t F HP Ht. pose proof F as ((H1 & _) & _ & _).
+  rewrite (x_new_clean st t F Ht), (sub_ns_interval_is_clamped st H1 HP), Z.mul_1_r. reflexivity.
+Qed.
+
+(* ---------- GetBucketState -> SetBucketState ---------- *)
+Lemma x_taken_rounds_up : x_taken = x_taken_gen true.
+Proof. reflexivity. Qed.
+
+(* the tokens SetBucketState leaves when handed the reported state (N - taken) never exceed the
+   credit the bucket holds: writing a state back cannot mint capacity *)
+Theorem round_trip_never_mints_proved : forall l t,
+  xk l = XNorm -> lim_ok l -> xlast l <= t -> xburst l + 1 <= max_u32 ->
+  (xburst l - x_taken l t) * xI l <= pot l t.
+Proof.
+  intros l t K OK L HB. rewrite x_taken_rounds_up. unfold x_taken_gen. rewrite K, (x_avail_eq l t L).
+  pose proof (pot_lower l t OK L) as Hp. pose proof (pot_le_cap l t) as Hc. destruct OK as (HI & HN & _ & _).
+  unfold xcap in *. set (p := pot l t) in *. set (I := xI l) in *. set (N := xburst l) in *.
+  pose proof (Z.div_mod (N * I - p + I - 1) I ltac:(lia)) as E. pose proof (Z.mod_pos_bound (N * I - p + I - 1) I ltac:(lia)) as B.
+  set (v := (N * I - p + I - 1) / I) in *.
+  assert (v <= N + 1) by nia.
+  rewrite Z.min_r by (unfold max_u32 in *; lia). nia.
 Qed.
